@@ -36,6 +36,9 @@ CONTENT = [
     # floats that need 16-17 significant digits, in exponent and in plain notation, and the ends of the float range
     1.234567890123457e-05, 1.234567890123457e+19, 5e-324, 123456789.12345678, 0.1 + 0.2, 1.7976931348623157e308, 2.5e-308,
     9007199254740993, 10 ** 20, -1e-300,
+    # long texts: double spaces, tabs and line breaks where a 120-column writer would fold
+    ('The quick brown fox jumps over the lazy dog.  ' * 6).strip(), 'x' * 111 + '\tnext line here', 'word ' * 30 + ' end',
+    'a  b' * 40, ('0123456789 ' * 11).strip() + '  ' + 'tail', 'y' * 119 + ' ' + 'z' * 5, 'y' * 118 + '  ' + 'z' * 5,
     '- a', 'k: v', '{a: 1}', '[1, 2]', '# c', 'null', '~', 'true', 'yes', 'no', 'on', '1', '1.0', '1e3', '0x10', '.5',
     "'q'", '"q"', ' lead', 'trail ', '', 'é', '日本', 'a\nb', 'a\tb', 'x' * 300, 'a: b: c', '%TAG', '@at', '`bt`',
     '!bang', '&anchor', '*alias', '|', '>', '2001-01-01', '12:30:00', 'a #b', '\\n', 'a\\b', 'NaN', '.inf', '#N/A', '#DIV/0!',
@@ -188,6 +191,24 @@ def work_content(job):
                                       f'content {item!r} {fmt} cycles={cycles}: saving the loaded model wrote {diff} as '
                                       f'{[b_.get(k) for k in diff]!r}, the first save wrote {[a_.get(k) for k in diff]!r}')
                         continue
+                if fmt in ('yml', 'json'):
+                    # the loaded model saved in the OTHER text format reads back the same values
+                    other = 'json' if fmt == 'yml' else 'yml'
+                    try:
+                        path3 = save(ld, os.path.join(tmp, f'x{idx}'), other)
+                        ld3 = ExcelCompiler.from_file(path3)
+                        for a in cells:
+                            lv3 = ev(ld3, a)
+                            acc.add('transitions')
+                            if not same(orig[a], lv3):
+                                acc.violation(dict(base, fmt=other, verdict='converted-differs', cell=a, source=fmt, observed=jsonable(lv3),
+                                                   expected=jsonable(orig[a]), defect=defect_model(item, other, a, lv3)),
+                                              f'content {item!r} saved as {fmt}, loaded, saved as {other} and loaded (cycles={cycles}): '
+                                              f'{a} = {lv3!r} but the original has {orig[a]!r}')
+                                break
+                    except Exception as exc:
+                        acc.violation(dict(base, verdict='resave-raised', exc=type(exc).__name__, to=other),
+                                      f'content {item!r} {fmt} -> {other} cycles={cycles}: {type(exc).__name__}: {str(exc)[:160]}')
                 for a in cells:
                     lv2 = ev(ld2, a)
                     acc.add('transitions')
@@ -415,6 +436,14 @@ def work_rules(job):
             got = ev(ld, fam['inputs'][0])
             if not same(('ok', 987), got):
                 bad('pickle-stale', f'pickle reloaded after a change gives {got!r} for the changed input', fmt='yml+pkl')
+            # a text-only save after a pkl+yml save: from_file by the bare name must give the LATEST save
+            m.set_value(fam['inputs'][0], 321)
+            time.sleep(0.002)
+            m.to_file(pb, file_types=('yml',))
+            got = ev(ExcelCompiler.from_file(pb), fam['inputs'][0])
+            if not same(('ok', 321), got):
+                bad('pickle-stale', f'after save(pkl+yml), write, save(yml): from_file by name without extension gives {got!r} for the '
+                    f'changed input, the latest save has 321', fmt='yml+pkl', how='name after text-only save')
             # a text-only save in between refreshes the text file: the next pkl+yml save must refresh the pickle too
             m.set_value(fam['inputs'][0], 654)
             m.to_file(pb, file_types=('yml',))
